@@ -676,6 +676,53 @@ def desugar_walrus(fn):
     return _map_blocks(fn, fblock)
 
 
+def dispatch_comprehensions(fn):
+    """`X = [A if c else B for t in IT]` (a type dispatch written inside a comprehension)  ->  `X = []; for t in IT: if c: X.append(A) else:
+    X.append(B)`; `map(f, xs)` with one iterable -> `(f(m) for m in xs)`.  Both keep elements and order."""
+    class M(ast.NodeTransformer):
+        def visit_Call(self, node):
+            self.generic_visit(node)
+            if isinstance(node.func, ast.Name) and node.func.id == "map" and len(node.args) == 2 and not node.keywords and not isinstance(node.args[1], ast.Starred) \
+                    and isinstance(node.args[0], (ast.Name, ast.Attribute, ast.Lambda)):
+                var = ast.Name(id="m", ctx=ast.Load())
+                call = ast.Call(func=node.args[0], args=[var], keywords=[])
+                return ast.copy_location(ast.GeneratorExp(elt=call, generators=[ast.comprehension(target=ast.Name(id="m", ctx=ast.Store()), iter=node.args[1], ifs=[], is_async=0)]), node)
+            # filter(lambda x: C, xs) -> (x for x in xs if C)
+            if isinstance(node.func, ast.Name) and node.func.id == "filter" and len(node.args) == 2 and not node.keywords and isinstance(node.args[0], ast.Lambda) \
+                    and len(node.args[0].args.args) == 1 and not node.args[0].args.defaults and not node.args[0].args.vararg:
+                v = node.args[0].args.args[0].arg
+                return ast.copy_location(ast.GeneratorExp(elt=ast.Name(id=v, ctx=ast.Load()), generators=[
+                    ast.comprehension(target=ast.Name(id=v, ctx=ast.Store()), iter=node.args[1], ifs=[node.args[0].body], is_async=0)]), node)
+            # list(<generator expression>) -> the list comprehension
+            if isinstance(node.func, ast.Name) and node.func.id == "list" and len(node.args) == 1 and not node.keywords and isinstance(node.args[0], ast.GeneratorExp):
+                return ast.copy_location(ast.ListComp(elt=node.args[0].elt, generators=node.args[0].generators), node)
+            return node
+
+    def ladder(acc, e, at):
+        if isinstance(e, ast.IfExp):
+            return [ast.copy_location(ast.If(test=e.test, body=ladder(acc, e.body, at), orelse=ladder(acc, e.orelse, at)), at)]
+        return [ast.copy_location(ast.Expr(value=ast.Call(func=ast.Attribute(value=ast.Name(id=acc, ctx=ast.Load()), attr="append", ctx=ast.Load()), args=[e], keywords=[])), at)]
+
+    def fblock(stmts):
+        out = []
+        for s in stmts:
+            if isinstance(s, ast.Assign) and len(s.targets) == 1 and isinstance(s.targets[0], ast.Name) and isinstance(s.value, ast.ListComp) and len(s.value.generators) == 1 \
+                    and not s.value.generators[0].ifs and isinstance(s.value.elt, ast.IfExp) and not any(isinstance(x, ast.Name) and x.id == s.targets[0].id for x in ast.walk(s.value)):
+                g = s.value.generators[0]
+                out.append(ast.copy_location(ast.Assign(targets=[ast.Name(id=s.targets[0].id, ctx=ast.Store())], value=ast.List(elts=[], ctx=ast.Load())), s))
+                out.append(ast.copy_location(ast.For(target=g.target, iter=g.iter, body=ladder(s.targets[0].id, s.value.elt, s), orelse=[]), s))
+                continue
+            out.append(s)
+        return out
+    # the generated variable of map() must not capture a local: only when no `m` exists (filter / list forms introduce no name)
+    has_m = any(isinstance(n, ast.Name) and n.id == "m" for n in ast.walk(fn))
+    has_map = any(isinstance(n, ast.Call) and isinstance(n.func, ast.Name) and n.func.id == "map" for n in ast.walk(fn))
+    if not (has_m and has_map):
+        fn = M().visit(fn)
+    fn = _map_blocks(fn, fblock)
+    return fn
+
+
 def split_unpacking(fn):
     """`a, b = (E(x) for x in Y)` (or the list form; one generator, no filter)  ->  `_u1, _u2 = Y; a = E(_u1); b = E(_u2)`"""
     def fblock(stmts):
@@ -1280,6 +1327,7 @@ def normal_form(ix, f, keep):
     passes = [
         lambda t: desugar_match(t),
         lambda t: desugar_walrus(t),
+        lambda t: dispatch_comprehensions(t),
         lambda t: fold_constants(t, consts, single),
         lambda t: unroll_const_loops(t, consts, single),
         lambda t: materialise_generators(ix, f, t, keep),
